@@ -13,6 +13,7 @@ def table : List ModelEntries :=
   [ Entries.stopsource
   , Entries.calcEntries
   , Entries.remotequeue
+  , Entries.epollop
   ]
 
 def lookup (m c : String) : Option Entry :=
